@@ -320,16 +320,28 @@ def gen_lexrules():
     return "\n".join(lines) + "\n", summary
 
 
+def probe_in_child(code):
+    """run a behavioural probe in a fresh interpreter (a probe that feeds invalid text must not be
+    able to disturb the other probes through state the package keeps between calls); the child
+    prints True/False"""
+    import subprocess
+    src = "import sys; sys.path.insert(0, %r)\n" % REPO_SRC + textwrap.dedent(code)
+    p = subprocess.run([sys.executable, "-c", src], capture_output=True, text=True, timeout=120)
+    out = p.stdout.strip().splitlines()
+    return bool(out) and out[-1] == "True"
+
+
 def eof_requires_initial():
     """Is an unterminated block comment rejected?  Detected behaviourally on the real
     lexer+parser entry point with a probe that is otherwise a valid program."""
-    from pyab_experiment.utils.wraper_functions import parse_source
-    probe = 'def e { return "a" weighted 1 } /* open'
-    try:
-        r = parse_source(probe)
-    except Exception:
-        return True
-    return r is None
+    return probe_in_child('''
+        from pyab_experiment.utils.wraper_functions import parse_source
+        try:
+            r = parse_source('def e { return "a" weighted 1 } /* open')
+            print(r is None)
+        except Exception:
+            print(True)
+    ''')
 
 
 # --------------------------------------------------------------------------
@@ -569,22 +581,23 @@ def gen_config():
         flags["keyUtf8"] = False
 
     # is a failed recompile remembered as "already compiled"?  (checksum stored before compiling)
-    try:
+    flags["checksumEarly"] = not probe_in_child('''
+        import io, contextlib
         from pyab_experiment.experiment_evaluator import ExperimentEvaluator
-        ev = ExperimentEvaluator('def e { return "a" weighted 1 }')
-        bad = 'def e { return "a" weighted }'
-        first = second = False
-        try:
-            ev.recompile(bad)
-        except Exception:
-            first = True
-        try:
-            ev.recompile(bad)
-        except Exception:
-            second = True
-        flags["checksumEarly"] = not (first and second)
-    except Exception:
-        flags["checksumEarly"] = True
+        with contextlib.redirect_stdout(io.StringIO()), contextlib.redirect_stderr(io.StringIO()):
+            ev = ExperimentEvaluator('def e { return "a" weighted 1 }')
+            bad = 'def e { return "a" weighted }'
+            first = second = False
+            try:
+                ev.recompile(bad)
+            except Exception:
+                first = True
+            try:
+                ev.recompile(bad)
+            except Exception:
+                second = True
+        print(first and second)
+    ''')
 
     b = lambda x: "true" if x else "false"
     lines = [
